@@ -281,6 +281,7 @@ type result struct {
 	real      M      // same shape as the model's answer
 	modelReq  M      // request for the driver (slots resolved to connection ids)
 	propFail  string // non-empty: the property itself failed on the real outcome
+	findKey   string // stable key of that failure
 	keys      []string
 	nontriv   []bool
 	histogram []string
@@ -566,6 +567,7 @@ func lockOptions() raft.Options {
 }
 
 var tempRoot string
+var corpusDir string
 
 func runLock(sc *Scenario) (res *result) {
 	res = &result{}
@@ -636,7 +638,14 @@ func runLock(sc *Scenario) (res *result) {
 				skip = true
 				break
 			}
-			out["out"] = lockClass(raft.SetIdentity(dir, uint64(num(op, "cid")), uint64(num(op, "nid"))))
+			cid, nid := num(op, "cid"), num(op, "nid")
+			cls := lockClass(raft.SetIdentity(dir, uint64(cid), uint64(nid)))
+			out["out"] = cls
+			// SetIdentity must not report success for an identity the directory does not carry afterwards
+			if after := stored(); cls == "ok" && (after[0] != cid || after[1] != nid) {
+				res.propFail = fmt.Sprintf("SetIdentity(dir, %d, %d) returned nil but the directory stores %v", cid, nid, after)
+				res.findKey = "C20-setidentity-mismatch-reported-nil"
+			}
 		case "new":
 			c, n, err := raft.VerifNew(dir, lockOptions())
 			out["out"], out["ident"] = lockClass(err), []int{int(c), int(n)}
@@ -781,7 +790,6 @@ func normalizeModel(ans M) {
 		if !ok {
 			continue
 		}
-		delete(m, "body")
 		if l, ok := m["out"].([]interface{}); ok {
 			ss := []string{}
 			for _, e := range l {
@@ -814,19 +822,17 @@ func check(d *harness.Driver, sc *Scenario) *outcome {
 		oc.disagreement = M{"case": sc, "real": res.real, "model": fmt.Sprint(err), "property_failed": nil, "note": "driver error"}
 		return oc
 	}
-	// count the SetIdentity mis-report before "body" is dropped
-	if steps, ok := ans["steps"].([]interface{}); ok {
-		for _, s := range steps {
-			if m, ok := s.(map[string]interface{}); ok && m["body"] == "alreadySet" && m["out"] == "ok" {
-				oc.setidMisrep++
-			}
-		}
+	if res.findKey == "C20-setidentity-mismatch-reported-nil" {
+		oc.setidMisrep++
 	}
 	normalizeModel(ans)
 	real := harness.ToCanon(res.real)
 	if res.propFail != "" {
-		oc.disagreement = M{"case": sc, "real": real, "model": ans, "property_failed": "C20", "note": res.propFail,
-			"finding_key": "C20-" + sc.Part + "-property"}
+		key := res.findKey
+		if key == "" {
+			key = "C20-" + sc.Part + "-property"
+		}
+		oc.disagreement = M{"case": sc, "real": real, "model": ans, "property_failed": "C20", "note": res.propFail, "finding_key": key}
 		return oc
 	}
 	if !harness.Equal(real, ans) {
@@ -919,6 +925,7 @@ func main() {
 	nconn := flag.Int("conn", 0, "number of connection scenarios (0 = tier default)")
 	nlock := flag.Int("lock", 0, "number of lock scenarios (0 = tier default)")
 	nrace := flag.Int("race", 0, "number of lockDir race rounds (0 = tier default)")
+	flag.StringVar(&corpusDir, "corpus", "/verif/go/conndiff/corpus", "regression scenarios, run first; each must pass")
 	flag.Parse()
 
 	var err error
@@ -942,20 +949,12 @@ func run(driver string, seed int64, tier, report, replay, replayDir string, ncon
 	defer d.Close()
 
 	if replay != "" {
-		b, err := ioutil.ReadFile(replay)
+		sc, err := readCase(replay)
 		if err != nil {
 			fmt.Fprintln(os.Stderr, err)
 			return 2
 		}
-		var rec struct {
-			Case Scenario `json:"case"`
-		}
-		dec := json.NewDecoder(strings.NewReader(string(b)))
-		if err := dec.Decode(&rec); err != nil {
-			fmt.Fprintln(os.Stderr, err)
-			return 2
-		}
-		oc := check(d, &rec.Case)
+		oc := check(d, sc)
 		if oc.disagreement != nil {
 			out, _ := json.MarshalIndent(oc.disagreement, "", " ")
 			fmt.Println(string(out))
@@ -965,9 +964,9 @@ func run(driver string, seed int64, tier, report, replay, replayDir string, ncon
 		return 0
 	}
 
-	cN, lN, rN := 2400, 650, 400
+	cN, lN, rN := 4000, 1100, 600
 	if tier == "thorough" {
-		cN, lN, rN = 52000, 13000, 12000
+		cN, lN, rN = 90000, 22000, 20000
 	}
 	if nconn > 0 {
 		cN = nconn
@@ -985,8 +984,7 @@ func run(driver string, seed int64, tier, report, replay, replayDir string, ncon
 			"distinct = (operation, error class, pool state before, how the open/closed/pooled flags of every connection changed, identity relation of a newly dialled connection) " +
 			"resp. (operation, result, lock/identity state before and after); trivial = config/resolver/lookup bookkeeping operations"}
 	distinct := map[string]bool{}
-	misrep := 0
-	var misrepCase *Scenario
+	misrep := 0 // SetIdentity mis-reports seen on the real code: must stay 0 (a hit is a C20 failure)
 	record := func(sc *Scenario, oc *outcome) bool {
 		for i, k := range oc.res.keys {
 			rep.Evaluations++
@@ -995,12 +993,7 @@ func run(driver string, seed int64, tier, report, replay, replayDir string, ncon
 			}
 			rep.Histogram[sc.Part+"."+oc.res.histogram[i]]++
 		}
-		if oc.setidMisrep > 0 {
-			misrep += oc.setidMisrep
-			if misrepCase == nil {
-				misrepCase = sc
-			}
-		}
+		misrep += oc.setidMisrep
 		if len(rep.Samples) < 4 && len(sc.Ops) > 5 && rep.Evaluations%7 == 0 {
 			rep.Samples = append(rep.Samples, M{"case": sc, "real": oc.res.real})
 		}
@@ -1025,7 +1018,27 @@ func run(driver string, seed int64, tier, report, replay, replayDir string, ncon
 		return len(rep.Disagreements) < 5
 	}
 
-	for i := 0; i < cN; i++ {
+	corpusN := 0
+	if files, _ := filepath.Glob(filepath.Join(corpusDir, "*.json")); len(files) > 0 {
+		sort.Strings(files)
+		for _, f := range files {
+			sc, err := readCase(f)
+			if err != nil {
+				fmt.Fprintln(os.Stderr, "corpus:", f, err)
+				return 2
+			}
+			corpusN++
+			before := len(rep.Disagreements)
+			more := record(sc, check(d, sc))
+			for _, dg := range rep.Disagreements[before:] {
+				dg["corpus"] = f
+			}
+			if !more {
+				break
+			}
+		}
+	}
+	for i := 0; i < cN && len(rep.Disagreements) < 5; i++ {
 		s := seed*1000003 + int64(i)
 		if !record2(record, d, genConn(rand.New(rand.NewSource(s)), s)) {
 			break
@@ -1050,26 +1063,16 @@ func run(driver string, seed int64, tier, report, replay, replayDir string, ncon
 
 	rep.DistinctNontrivial = len(distinct)
 	rep.WallS = time.Since(start).Seconds()
-	rep.Extra = M{"conn_scenarios": cN, "lock_scenarios": lN, "race_rounds": rN, "race_max_holders": maxHolders}
-	if misrep > 0 {
-		rep.Extra["observations"] = []M{{
-			"finding_key": "C20-setidentity-mismatch-reported-nil",
-			"count":       misrep,
-			"what": "SetIdentity(dir, cid, nid) on a directory that stores a different non-zero identity returns nil instead of ErrIdentityAlreadySet: " +
-				"the deferred `err = unlockDir(storageDir)` overwrites the result (storage.go). The stored identity is NOT changed (identity_immutable holds); only the report is wrong. " +
-				"Same for errors of openValue / value.set.",
-			"example":         misrepCase,
-			"property_failed": nil,
-		}}
-	}
+	rep.Extra = M{"conn_scenarios": cN, "lock_scenarios": lN, "race_rounds": rN, "race_max_holders": maxHolders,
+		"corpus_cases": corpusN, "setid_misreports": misrep}
 	if report != "" {
 		if err := rep.Write(report); err != nil {
 			fmt.Fprintln(os.Stderr, err)
 			return 2
 		}
 	}
-	fmt.Printf("conndiff: %d evaluations, %d distinct, %d disagreements, setid-misreports %d, %.1fs (%.0f eval/s)\n",
-		rep.Evaluations, rep.DistinctNontrivial, len(rep.Disagreements), misrep, rep.WallS, float64(rep.Evaluations)/rep.WallS)
+	fmt.Printf("conndiff: %d evaluations (%d corpus cases), %d distinct, %d disagreements, %.1fs (%.0f eval/s)\n",
+		rep.Evaluations, corpusN, rep.DistinctNontrivial, len(rep.Disagreements), rep.WallS, float64(rep.Evaluations)/rep.WallS)
 	for _, dg := range rep.Disagreements {
 		fmt.Printf("DISAGREEMENT property_failed=%v note=%v replay=%v\n", dg["property_failed"], dg["note"], dg["replay"])
 	}
@@ -1077,6 +1080,24 @@ func run(driver string, seed int64, tier, report, replay, replayDir string, ncon
 		return 1
 	}
 	return 0
+}
+
+// readCase reads a replay / corpus file: {"case": scenario, ...}.
+func readCase(file string) (*Scenario, error) {
+	b, err := ioutil.ReadFile(file)
+	if err != nil {
+		return nil, err
+	}
+	var rec struct {
+		Case Scenario `json:"case"`
+	}
+	if err := json.Unmarshal(b, &rec); err != nil {
+		return nil, err
+	}
+	if rec.Case.Part != "conn" && rec.Case.Part != "lock" {
+		return nil, fmt.Errorf("%s: no case", file)
+	}
+	return &rec.Case, nil
 }
 
 func record2(record func(*Scenario, *outcome) bool, d *harness.Driver, sc *Scenario) bool {
